@@ -3,6 +3,8 @@ use crate::runner::DynSub;
 pub mod c01;
 pub mod c02;
 pub mod c03;
+pub mod c04;
+pub mod c05;
 pub mod c09;
 pub mod c10;
 
@@ -25,6 +27,8 @@ pub fn subs(prop: &str) -> Vec<Box<dyn DynSub>> {
         "C01" => c01::subs(),
         "C02" => c02::subs(),
         "C03" => c03::subs(),
+        "C04" => c04::subs(),
+        "C05" => c05::subs(),
         "C09" => c09::subs(),
         "C10" => c10::subs(),
         _ => Vec::new(),
